@@ -14,6 +14,10 @@ LEVEL_TEXT = {
  "C10": _lt("containers", "History-dependent half only: pairs of containers brought to the same content by different histories / copy / assign must be eq and hash equally; swap exchanges the model values.", TRUST + " The pure value-level clause of C10 is not claimed.", "DESIGN.md section 5 C10"),
  "C12": _lt("containers", "Fault enumeration: every invalid-call kind is injected at states sampled from the container simulations; the call must raise the documented exception and leave the canonical dump and the element ledger unchanged, and the model must keep agreeing afterwards.", TRUST + " Default (checked) build only.", "DESIGN.md section 5 C12 and appendix B"),
  "C16": _lt("containers", "Seeded exploration of heap String histories with every realloc allowed to move and new tails garbage-filled; contents, NUL placement inside the block, len/cmp/eq/hash/mem compared with a libc reference buffer after every operation.", TRUST, "DESIGN.md section 5 C16"),
+ "C01": _lt("heap", "Seeded exploration of heap-mutation histories mirrored by a shadow graph, with the collection schedule (allocation-pressure bursts through the shipped threshold path), allocator placement (incl. all registry slots colliding) and realloc moves owned by the simulator: after every operation everything the shadow graph reaches from stack slots, root holders and TLS entries must be alive (destructor ledger, block ledger, canary).", TRUST + " Never asserts that something unreachable was collected.", "DESIGN.md section 5 C01"),
+ "C06": _lt("heap", "Seeded exploration with an object ledger (destructor of a probe type) and the allocator's block ledger: every managed object finalised exactly once and released exactly once by the program-exit teardown that ends every plan, through Box ownership chains, stop/start windows and sweep-time deletions; the teardown point varies with the seeded plan length.", TRUST, "DESIGN.md section 5 C06"),
+ "C17": _lt("heap", "Seeded exploration under adversarial address placement: mem(current(GC), p) compared with the ledger for every object ever seen after every operation, plus the registry enumerated through a read-only accessor hook (each object once, root flag, count, marks clear).", TRUST, "DESIGN.md section 5 C17"),
+ "C19": _lt("containers+heap", "Invariant monitor over every object handed out by the container and heap simulations (true type, allocation class, size) plus fault enumeration of wrong deallocations / in-place growth on stack, static and embedded objects: must raise ResourceError/ValueError and leave the object intact; the arena ledger flags any free of a non-heap pointer or double free.", TRUST + " Default (checked) build only.", "DESIGN.md section 5 C19"),
 }
 
 NOT_APPLICABLE = {
@@ -24,18 +28,16 @@ NOT_APPLICABLE = {
 }
 # claimed in DESIGN.md, check not built yet (removed from here as each check lands)
 NOT_BUILT = {
- "C01": "claimed in DESIGN.md; the heap engine for this check is not built yet in this commit",
- "C06": "claimed in DESIGN.md; the heap engine for this check is not built yet in this commit",
  "C07": "claimed in DESIGN.md; the exceptions engine for this check is not built yet in this commit",
  "C08": "claimed in DESIGN.md; the dispatch engine for this check is not built yet in this commit",
  "C13": "claimed in DESIGN.md; the threads engine for this check is not built yet in this commit",
- "C17": "claimed in DESIGN.md; the heap engine for this check is not built yet in this commit",
  "C18": "claimed in DESIGN.md; the configuration-differential stage is not built yet in this commit",
- "C19": "claimed in DESIGN.md; the check is not built yet in this commit",
  "C20": "claimed in DESIGN.md; the files engine for this check is not built yet in this commit",
 }
 
 ENGINES = [
+ {"name": "heap", "path": "sim/scen_heap.c", "serves_properties": ["C01", "C06", "C17", "C19"],
+  "kind_free_text": "seeded heap-mutation plans (Nodes, Ref, Box, containers of refs; stack/root/TLS roots; links, dels, copies, chains, stop/start, bursts) mirrored by a shadow graph and object/block ledgers"},
  {"name": "containers", "path": "sim/scen_containers.c", "serves_properties": ["C02", "C03", "C04", "C05", "C10", "C12", "C16", "C18", "C19"],
   "kind_free_text": "seeded operation plans over Table/Tree/Array/List/Tuple/String against reference models; allocator policies, collector-managed instances with allocation-pressure bursts, invalid-call injection"},
 ]
